@@ -44,20 +44,20 @@ def walk_stmts(stmts, fe, fs=None):
         elif k == 'block':
             walk_stmts(s[1], fe, fs)
         elif k == 'if':
-            walk_expr(s[1], fe, ('cond',))
+            walk_expr(s[1], fe, ('cond', 'neg'))
             walk_stmts([s[2]], fe, fs)
             if s[3] is not None:
                 walk_stmts([s[3]], fe, fs)
         elif k == 'while':
-            walk_expr(s[1], fe, ('cond',))
+            walk_expr(s[1], fe, ('cond', 'neg'))
             walk_stmts([s[2]], fe, fs)
         elif k == 'do':
             walk_stmts([s[1]], fe, fs)
-            walk_expr(s[2], fe, ('cond',))
+            walk_expr(s[2], fe, ('cond', 'pos'))
         elif k == 'for':
             for x in s[1:4]:
                 if x is not None:
-                    walk_expr(x, fe, ('cond',) if x is s[2] else None)
+                    walk_expr(x, fe, ('cond', 'neg') if x is s[2] else None)
             walk_stmts([s[4]], fe, fs)
         elif k == 'switch':
             walk_expr(s[1], fe)
@@ -69,6 +69,16 @@ def walk_stmts(stmts, fe, fs=None):
             walk_expr(s[1], fe)
         elif k in ('load', 'store'):
             walk_expr(s[1], fe)
+
+
+def contains(e, pred):
+    found = []
+
+    def f(x, parent):
+        if pred(x):
+            found.append(x)
+    walk_expr(e, f)
+    return bool(found)
 
 
 def features(prog):
@@ -130,7 +140,16 @@ def features(prog):
                 if 's16' in (a, b):
                     feats.add('cmp_signed16')
             if e[1] in ORDER and ((e[3][0] == 'num' and e[3][1] == 0) or (e[2][0] == 'num' and e[2][1] == 0)):
-                feats.add('cmp_order_zero')
+                # the wrong cells of the CMP-less comparison with 0 (theorem C01_zero_compare_unsigned_cells)
+                # are < > >= AFTER the generator's negation: an if/while/for condition is negated,
+                # a do-while condition is not; elsewhere (&&, ||, !, ?:, value) it depends
+                op = e[1] if e[3][0] == 'num' else {'<': '>', '>': '<', '<=': '>=', '>=': '<='}[e[1]]
+                if parent is not None and parent[0] == 'cond' and len(parent) > 1:
+                    eff = {'<': '>=', '>=': '<', '>': '<=', '<=': '>'}[op] if parent[1] == 'neg' else op
+                    if eff in ('<', '>', '>='):
+                        feats.add('cmp_order_zero')
+                else:
+                    feats.add('cmp_order_zero')
             if e[2][0] == 'idx' or e[3][0] == 'idx':
                 feats.add('cmp_indexed')
             if e[2][0] == 'var' and e[2][1] in ('X', 'Y') or e[3][0] == 'var' and e[3][1] in ('X', 'Y'):
@@ -141,6 +160,8 @@ def features(prog):
                 feats.add('cmp_const_left')
         if k == 'bin' and e[1] in ('<<', '>>'):
             feats.add('shift')
+            if contains(e[2], lambda x: x[0] == 'bin' and x[1] in ('<<', '>>')):
+                feats.add('shift_nested')
             if etype(e[2]) in ('s16', 'u16'):
                 feats.add('shift_16')
             if complex_(e[2]):
@@ -166,6 +187,9 @@ def features(prog):
             rt = etype(e[3])
             if lt in ('s16', 'u16'):
                 feats.add('assign_16')
+                if e[1] == '=' and e[2][0] == 'var' and contains(e[3], lambda x: x[0] == 'bin' and x[1] == '<<' and x[3] == ('num', 8)
+                                                                 and contains(x[2], lambda y: y == e[2])):
+                    feats.add('shl8_self_assign')
                 if e[3][0] == 'bin' and e[3][1] in ('<<', '>>') and etype(e[3][2]) in ('u8', 's8'):
                     feats.add('assign16_shift8')
                 if rt == 's8':
